@@ -157,26 +157,34 @@ func (v Verdict) String() string {
 // plain message the message itself. Reaching beyond the chain (i >= depth) is
 // not covered by the documented contract.
 func (c Chain) Index(i int) (Chain, Verdict) {
+	n, v := c.IndexLevels(i)
+	if v != Accept {
+		return Chain{}, v
+	}
+	out := c.Clone()
+	out.Levels = out.Levels[:n]
+	return out, Accept
+}
+
+// IndexLevels is Index reduced to the number of levels (counted from the
+// innermost) that remain in the result.
+func (c Chain) IndexLevels(i int) (int, Verdict) {
 	d := len(c.Levels)
 	if d == 0 {
 		if i < -1 {
-			return c, Unspecified // documented both as "error" and as "returns the original"
+			return 0, Unspecified // documented both as "invalid index" and as "returns the original"
 		}
-		return c.Clone(), Accept
+		return 0, Accept
 	}
 	switch {
 	case i < -1:
-		return Chain{}, Reject
+		return 0, Reject
 	case i == -1:
-		out := c.Clone()
-		out.Levels = out.Levels[:1]
-		return out, Accept
+		return 1, Accept
 	case i >= d:
-		return Chain{}, Unspecified
+		return 0, Unspecified
 	}
-	out := c.Clone()
-	out.Levels = out.Levels[:d-(i+1)]
-	return out, Accept
+	return d - (i + 1), Accept
 }
 
 // ReplyChain models NewRelayReplFromRelayForw for a chain whose every level is
@@ -228,9 +236,17 @@ func (in Inner) Encode() []byte {
 // are written in the order relay-msg, interface-id, remote-id (the order in
 // which the checks add them); Decode does not depend on the order.
 func (c Chain) Encode() []byte {
+	all := c.EncodeAll()
+	return all[len(all)-1]
+}
+
+// EncodeAll returns the encoding of every sub-chain: element j is the chain cut
+// down to its j innermost levels (element 0 is the inner message alone).
+func (c Chain) EncodeAll() [][]byte {
 	payload := c.Inner.Encode()
+	out := [][]byte{payload}
 	for _, l := range c.Levels {
-		b := make([]byte, 0, 34+4+len(payload)+16)
+		b := make([]byte, 0, 34+4+len(payload)+32)
 		b = append(b, l.Type, l.Hop)
 		b = append(b, l.Link[:]...)
 		b = append(b, l.Peer[:]...)
@@ -242,8 +258,9 @@ func (c Chain) Encode() []byte {
 			b = putOpt(b, OptRemoteID, *l.RID)
 		}
 		payload = b
+		out = append(out, b)
 	}
-	return payload
+	return out
 }
 
 type rawOpt struct {
